@@ -968,3 +968,7 @@ V('c16-queue-after-http-thread', 'C16', 'C16.R8',
   [('pywbem/_listener.py', "        self._ind_queue = queue.Queue(\n            maxsize=self._max_ind_queue_size)\n", "        pass\n"),
    ('pywbem/_listener.py', "    def stop(self):\n        \"\"\"\n        Stop the WBEM listener gracefully.", "        self._ind_queue = queue.Queue(\n            maxsize=self._max_ind_queue_size)\n\n    def stop(self):\n        \"\"\"\n        Stop the WBEM listener gracefully.")],
   'accepting-before-delivery')
+V('c12-superclass-memo', 'C12', 'C12.R12',
+  [('pywbem_mock/_resolvermixin.py', "                superclass = self.get_class(namespace, new_class.superclass,\n                                            local_only=False,\n                                            include_qualifiers=True,\n                                            include_classorigin=True)",
+    "                memo_key = (namespace, new_class.superclass.lower())\n                if memo_key not in self._sc_memo:\n                    self._sc_memo[memo_key] = self.get_class(\n                        namespace, new_class.superclass, local_only=False,\n                        include_qualifiers=True, include_classorigin=True)\n                superclass = self._sc_memo[memo_key]")],
+  'memo-table')
